@@ -32,6 +32,10 @@ pub fn derive(tr: &str, di: &syn::DeriveInput) -> proc_macro2::TokenStream {
 
 /// Normalised root-cause signature of a derive panic.
 pub fn panic_root(msg: &str) -> String {
+    // one root cause, many messages (they quote the identifier): string slicing inside the `ident_case` crate
+    if msg.contains("/ident_case-") && msg.contains("/src/lib.rs") {
+        return "string-slice-in-ident_case@rename-rule".to_string();
+    }
     let text = msg.rsplit_once(" @ ").map(|x| x.0).unwrap_or(msg);
     let file = msg
         .rsplit_once(" @ ")
